@@ -3,24 +3,24 @@ From Coq Require Import List ZArith Bool PrimFloat.
 From RV Require Import Common.Num Common.FloatNum C02.Model C02.Run C16.GravityVar Gen.Derivs.
 Import ListNotations.
 
-Definition runVar1 G ign nact tp ms xs ys zs dms dxs dys dzs : list float :=
-  flat (grav_var1 FNum G ign nact tp (mkps ms xs ys zs) (mkps dms dxs dys dzs)).
-Definition runVar1tp G ign ms xs ys zs dvx dvy dvz i : list float :=
-  let '(a, b, c) := grav_var1_tp FNum G ign (mkps ms xs ys zs) (dvx, dvy, dvz) i in [a; b; c].
+Definition runVar1 G soft ign nact tp ms xs ys zs dms dxs dys dzs : list float :=
+  flat (grav_var1 FNum (PrimFloat.mul soft soft) G ign nact tp (mkps ms xs ys zs) (mkps dms dxs dys dzs)).
+Definition runVar1tp G soft ign ms xs ys zs dvx dvy dvz i : list float :=
+  let '(a, b, c) := grav_var1_tp FNum (PrimFloat.mul soft soft) G ign (mkps ms xs ys zs) (dvx, dvy, dvz) i in [a; b; c].
 (* w: second-order set, a / b: first-order sets *)
-Definition runVar2 G ms xs ys zs wm wx wy wz am ax ay az bm bx by_ bz : list float :=
-  flat (grav_var2 FNum G (mkps ms xs ys zs) (mkps wm wx wy wz) (mkps am ax ay az) (mkps bm bx by_ bz)).
+Definition runVar2 G soft ms xs ys zs wm wx wy wz am ax ay az bm bx by_ bz : list float :=
+  flat (grav_var2 FNum (PrimFloat.mul soft soft) G (mkps ms xs ys zs) (mkps wm wx wy wz) (mkps am ax ay az) (mkps bm bx by_ bz)).
 Definition p7l (v : @P7 float) : list float := let '(m, x, y, z, vx, vy, vz) := v in [m; x; y; z; vx; vy; vz].
 
 (* ---- reb_simulation_rescale_var *)
 From RV Require Import C16.Rescale.
 Fixpoint unflat6 (l : list float) : list (@P6 float) :=
   match l with
-  | a :: b :: c :: d :: e :: f :: r => (a, b, c, d, e, f) :: unflat6 r
+  | m :: a :: b :: c :: d :: e :: f :: r => (m, a, b, c, d, e, f) :: unflat6 r
   | _ => []
   end.
 Definition flat6 (ps : list (@P6 float)) : list float :=
-  flat_map (fun p => let '(a, b, c, d, e, f) := p in [a; b; c; d; e; f]) ps.
+  flat_map (fun p => let '(m, a, b, c, d, e, f) := p in [m; a; b; c; d; e; f]) ps.
 (* libm log values supplied by the harness: table scale -> log(scale) *)
 Fixpoint lgtab (tab : list (float * float)) (s : float) : float :=
   match tab with
@@ -37,8 +37,8 @@ Definition runRescale (big : float) (tab : list (float * float)) (integ : nat) (
                      (map (fun q => let '(o, l, ps, al, st) := q in mkVC o l (unflat6 ps) al st) cfgs) in
   [b2f (warn1 fl); b2f (warn2 fl); b2f (recalc fl)] ++ flat_map (fun c => vc_lres c :: flat6 (vc_ps c) ++ vc_ias c) cs.
 
-Definition runVar2tp G ms xs ys zs wx wy wz ax ay az bx by_ bz i : list float :=
-  let '(a, b, c) := grav_var2_tp FNum G (mkps ms xs ys zs) (wx, wy, wz) (ax, ay, az) (bx, by_, bz) i in [a; b; c].
+Definition runVar2tp G soft ms xs ys zs wx wy wz ax ay az bx by_ bz i : list float :=
+  let '(a, b, c) := grav_var2_tp FNum (PrimFloat.mul soft soft) G (mkps ms xs ys zs) (wx, wy, wz) (ax, ay, az) (bx, by_, bz) i in [a; b; c].
 
 (* ---- reb_whfast_interaction_step, Jacobi coordinates: the loop after the acceleration transforms *)
 From RV Require Import C16.WhInteraction.
